@@ -716,6 +716,8 @@ func (s *State) execUnOp(u *ssa.UnOp) {
 			for _, f := range c.wf(t, ty, 0) {
 				s.assert(f)
 			}
+			// whatever is stored in the heap was allocated before now
+			s.assumeAllocated(t, ty)
 		}
 		if bb := c.basicInt(ty); bb != nil && bitsOf(bb) == 8 && isUnsigned(bb) && c.usesBits {
 			t = s.name(u.Name(), "Int", t)
